@@ -1588,3 +1588,19 @@ package ice
 //@   // not proved here: convert() leaves FieldsMap/FieldsInv/dictOffsets mutually consistent (every field is
 //@   // defined before the dictionaries are written, and locations name fields of the batch: input contract)
 //@   at call:(*interim).convert#0 assume result3 == nil ==> s.FieldsMap != nil && len(result1) == len(s.FieldsInv) && forallstr(k, s.FieldsMap[k] <= len(s.FieldsInv))
+//@
+//@ // ---- C16: every delivered posting's document is tracked for the field's document count ----
+//@ func mergeTermFreqNormLocs
+//@   at call:(*github.com/RoaringBitmap/roaring.Bitmap).Add#1 lemma[C16] select(bset(docTracking), hitNewDocNum) && hitNewDocNum != dropped()
+//@
+//@ // ---- C15: the bitmaps handed in by the caller (exclusions, deletions) are only read ----
+//@ func (*PostingsList).iterator
+//@   ensures[C15] @exclusions_untouched p.except != nil ==> bset(p.except) == old(bset(p.except)) && brep(p.except) == old(brep(p.except))
+//@ func (*PostingsList).Count
+//@   ensures[C15] @exclusions_untouched p.except != nil ==> bset(p.except) == old(bset(p.except)) && brep(p.except) == old(brep(p.except))
+//@ func (*PostingsList).OrInto
+//@   ensures[C15] @exclusions_untouched p.except != nil && p.except != receiver ==> bset(p.except) == old(bset(p.except)) && brep(p.except) == old(brep(p.except))
+//@ func computeNewDocCount
+//@   ensures[C15] @deletions_untouched forall(j, 0, len(drops), drops[j] != nil ==> bset(drops[j]) == old(bset(drops[j])) && brep(drops[j]) == old(brep(drops[j])))
+//@ func mergeStoredAndRemapSegment
+//@   ensures[C15] @deletions_untouched dropsI != nil ==> bset(dropsI) == old(bset(dropsI)) && brep(dropsI) == old(brep(dropsI))
